@@ -20,6 +20,7 @@ rules = [
     (r'go-panic', 4),
     (r'^B\|bare-target\|', 5),
     (r'getter-backed', 6),
+    (r"^(?!.*\\|String\\|).*(Cannot redefine property|'defineProperty' on proxy: trap returned falsish|engine=\\[\\]\\|spec@false-status)", 3),
     (r'<listed by ownKeys but no descriptor>|engine=K<v=|engine=ok:B$|is a read-only and non-configurable data|Object\.freeze\|state-differs|Reflect\.getOwnPropertyDescriptor\|result-differs|call-sequence\|engine:defineProperty\|spec:defineProperty', 3),
     (r"accessor<-data\|spec=throw|data<-accessor\|spec=throw", 2),
     (r"trap returned descriptor for property|incompatible-descriptor\|engine=ok|engine=throw:TypeError\[\]|\[op:(Reflect|Object)\.(defineProperty|freeze|seal)\]", 1),
